@@ -1015,7 +1015,7 @@ fn layers(n: usize) -> bool {
                         let want = enc_with(rule(k, r), NoSimd::new(), k, r, &data);
                         if x != want { bad!(format!("encode after this history differs from a fresh dedicated {:?} encoder", rule(k, r))) }
                     }
-                    dirty = x.is_err();
+                    dirty = x.is_err() && (dirty || take > 0);
                 } else { log += " (abandoned)"; dirty = dirty || take > 0; }
                 match rng.below(4) {
                     0 => {}
@@ -1052,7 +1052,7 @@ fn layers(n: usize) -> bool {
                         let want = dec_with(rule(k, r), NoSimd::new(), k, r, sb, &go, &gr);
                         if x != want { bad!(format!("decode after this history differs from a fresh dedicated {:?} decoder", rule(k, r))) }
                     }
-                    dirty = x.is_err() && take > 0;
+                    dirty = x.is_err() && (dirty || take > 0);
                 } else { log += " (abandoned)"; dirty = dirty || take > 0; }
                 match rng.below(4) {
                     0 => {}
